@@ -371,3 +371,167 @@ Proof.
         destruct (IH pre CIdle None None d ms Hwfs Hcont Hms Hdist (conj eq_refl eq_refl) Hopen) as [I1 I2].
         split; [exact I1|]. intros k. rewrite I2, !req_assoc_app. reflexivity.
 Qed.
+
+(* ------------------------------------------------------------------ the server half *)
+Lemma reply_cases cls meth : spec_reply cls meth = true ->
+  In (cls, meth) [(10, 41); (10, 51); (20, 11); (40, 11); (50, 11); (50, 21); (60, 21); (60, 31)].
+Proof.
+  unfold spec_reply. intros H. apply andb_prop in H. destruct H as [H1 H]. apply N.leb_le in H1.
+  apply request_cases in H. cbn [In] in H |- *.
+  repeat (destruct H as [H|H]; [inversion H; subst; clear H|]); try contradiction;
+    match goal with Hm : _ = meth - 1 |- _ => assert (Hx : meth = N.succ (meth - 1)) by lia; rewrite <- Hm in Hx; cbn in Hx; subst meth end; auto 12.
+Qed.
+Ltac reply_split H :=
+  apply reply_cases in H; cbn [In] in H;
+  repeat (destruct H as [H|H]; [inversion H; subst; clear H|]); try contradiction.
+
+Lemma reply_facts cls meth : spec_reply cls meth = true ->
+  spec_content cls meth = false /\ spec_request cls (meth - 1) = true /\ meth - meth mod 10 = meth - 1 /\ plain_emit cls meth = true.
+Proof. intros H. reply_split H; repeat split; reflexivity. Qed.
+Lemma reply_key_not_msg (ch cls meth ch' w : N) : spec_reply cls meth = true -> (w = 40 \/ w = 60) ->
+  (ch, cls, meth - meth mod 10) <> (ch', 60, w).
+Proof. intros H Hw E. reply_split H; destruct Hw as [-> | ->]; inversion E. Qed.
+
+Lemma req_assoc_find ch cls m0 cfs : spec_request cls m0 = true ->
+  req_assoc (ch, cls, m0) cfs = option_map (fun rq => (true, req_view cls m0 rq)) (find_request ch cls m0 cfs).
+Proof.
+  intros Hr. induction cfs as [|f cfs IH]; [reflexivity|]. destruct f; cbn [req_assoc find_request]; try exact IH.
+  destruct (spec_request cls0 meth) eqn:Er0; cbn [andb].
+  - pose proof (request_mod cls0 meth Er0) as Hmod. unfold key_of. rewrite Hmod, N.sub_0_r. cbn [ident_eqb].
+    destruct ((ch =? ch0) && (cls =? cls0) && (m0 =? meth)) eqn:E; [|exact IH].
+    apply andb_prop in E. destruct E as [E E3]. apply andb_prop in E. destruct E as [E1 E2].
+    apply N.eqb_eq in E1, E2, E3. subst. reflexivity.
+  - destruct ((ch =? ch0) && (cls =? cls0) && (m0 =? meth)) eqn:E; [|exact IH].
+    apply andb_prop in E. destruct E as [E E3]. apply andb_prop in E. destruct E as [E1 E2].
+    apply N.eqb_eq in E1, E2, E3. subst. rewrite Hr in Er0. discriminate.
+Qed.
+
+Definition server_allowed (c m : N) : bool := negb (spec_request c m) && negb ((c =? 60) && (m =? 40)).
+
+Definition dmatch_s (m ch : N) (a : list arg) (d : dstate) : Prop :=
+  if m =? 60 then last d = LDeliver /\ cur d = (ch, 60, 60) /\ del_args d = a else last d = LOther.
+
+Definition sinv (cst : cstate) (cu : option (N * N * list arg)) (pr : option (list arg)) (d : dstate) : Prop :=
+  match cst with
+  | CIdle => cu = None /\ pr = None
+  | CWantHeader ch => exists m a, cu = Some (ch, m, a) /\ pr = None /\ dmatch_s m ch a d
+  | CWantBody ch size => exists m a p, cu = Some (ch, m, a) /\ pr = Some p /\ dmatch_s m ch a d /\ (m = 60 -> del_props d = p)
+  end.
+
+Lemma server_sim cfs : forall fs done cst cu pr d ms,
+  Forall wf_frame fs -> content_ok fs cst = true -> methods_ok server_allowed fs = true ->
+  distinct (done ++ keys spec_reply fs) = true ->
+  sinv cst cu pr d ->
+  (forall k, existsb (key_eqb k) done = false -> assoc k (open_msgs ms) = req_assoc k cfs) ->
+  (forall ch, assoc (ch, 60, 60) (open_msgs ms) = None) ->
+  map item_view (items (snd (run_frames false fs (d, ms)))) = map item_view (items ms) ++ spec_server fs cfs cu pr.
+Proof.
+  induction fs as [|f fs IH]; intros done cst cu pr d ms Hwf Hcont Hmeth Hdist Hinv Hopen Hmsg.
+  - cbn. rewrite app_nil_r. reflexivity.
+  - inversion Hwf as [|? ? Hwf1 Hwfs]; subst. rewrite run_frames_cons.
+    unfold methods_ok in Hmeth. cbn [forallb] in Hmeth. apply andb_prop in Hmeth. destruct Hmeth as [Hm1 Hms]. fold (methods_ok server_allowed fs) in Hms.
+    destruct f as [|hch|ch cls meth args|ch cls weight size flags slots|ch body].
+    + cbn [step content_ok spec_server keys] in *. exact (IH done cst cu pr d ms Hwfs Hcont Hms Hdist Hinv Hopen Hmsg).
+    + cbn [step content_ok spec_server keys] in *. exact (IH done cst cu pr d ms Hwfs Hcont Hms Hdist Hinv Hopen Hmsg).
+    + (* method *)
+      destruct Hwf1 as (Hch & (Hc & Hm & sig & Hsig & Hk & Hwfa) & Hlen).
+      cbn [content_ok] in Hcont. destruct cst; try discriminate. destruct Hinv as [-> ->].
+      apply andb_prop in Hm1. destruct Hm1 as [Hh Hal]. apply negb_true_iff in Hh.
+      unfold server_allowed in Hal. apply andb_prop in Hal. destruct Hal as [Hr Hd]. apply negb_true_iff in Hr, Hd.
+      destruct (handshake_false cls meth Hh) as [Hh1 Hh2].
+      rewrite (step_method false ch cls meth args d ms sig Hsig Hh1).
+      pose proof (emit_class cls meth sig Hsig) as Hpe. rewrite Hr, Hh2, orb_false_r in Hpe. cbn [orb] in Hpe.
+      cbn [spec_server]. cbn [keys] in Hdist. fold (spec_reply cls meth).
+      destruct (spec_reply cls meth) eqn:Erep.
+      * (* a reply *)
+        rewrite Hpe. destruct (reply_facts cls meth Erep) as (Hnc & Hrq & Hfam & _). rewrite Hnc in *. rewrite Hfam in *.
+        assert (Hrepd : reported sig args = spec_reported cls meth args).
+        { apply (reported_spec cls meth sig args Hsig Hk). unfold is_reported. rewrite Hpe. reflexivity. }
+        rewrite Hrepd.
+        destruct (distinct_mid _ _ _ Hdist) as [Hnot Hdist'].
+        pose proof (Hopen _ Hnot) as Hlook. rewrite (req_assoc_find ch cls (meth - 1) cfs Hrq) in Hlook.
+        assert (Hnm : forall ch', (ch', 60, 60) <> (ch, cls, meth - 1)).
+        { intros ch' E. symmetry in E. rewrite <- Hfam in E. revert E. apply reply_key_not_msg; [exact Erep|right; reflexivity]. }
+        destruct (find_request ch cls (meth - 1) cfs) as [rq|] eqn:Efind; cbn [option_map] in Hlook.
+        -- destruct (emit_reply_found false (ch, cls, meth - 1) (mid cls meth, spec_reported cls meth args) ms _ Hlook) as (l' & He & Hl').
+           rewrite He.
+           match goal with |- context [run_frames false fs (?d1, ?m1)] =>
+             pose proof (IH (done ++ [(ch, cls, meth - 1)]) CIdle None None d1 m1 Hwfs Hcont Hms) as I1 end.
+           rewrite <- app_assoc in I1. specialize (I1 Hdist' (conj eq_refl eq_refl)).
+           rewrite I1.
+           ++ cbn [items]. rewrite map_app. cbn [map]. rewrite <- app_assoc. reflexivity.
+           ++ intros k Hk'. cbn [open_msgs]. rewrite existsb_app in Hk'. apply orb_false_iff in Hk'. destruct Hk' as [Hk1 Hk2].
+              cbn [existsb] in Hk2. rewrite orb_false_r, key_eqb_ident in Hk2.
+              rewrite Hl'; [apply Hopen; exact Hk1|]. intros ->. rewrite ident_eqb_refl in Hk2. discriminate.
+           ++ intros ch'. cbn [open_msgs]. rewrite Hl'; [apply Hmsg|apply Hnm].
+        -- rewrite (emit_store false false _ _ ms Hlook).
+           match goal with |- context [run_frames false fs (?d1, ?m1)] =>
+             pose proof (IH (done ++ [(ch, cls, meth - 1)]) CIdle None None d1 m1 Hwfs Hcont Hms) as I1 end.
+           rewrite <- app_assoc in I1. specialize (I1 Hdist' (conj eq_refl eq_refl)).
+           rewrite I1; [reflexivity| |].
+           ++ intros k Hk'. cbn [open_msgs]. rewrite existsb_app in Hk'. apply orb_false_iff in Hk'. destruct Hk' as [Hk1 Hk2].
+              cbn [existsb] in Hk2. rewrite orb_false_r, key_eqb_ident in Hk2.
+              rewrite assoc_app, (Hopen k Hk1). destruct (req_assoc k cfs); [reflexivity|]. cbn [assoc]. rewrite Hk2. reflexivity.
+           ++ intros ch'. cbn [open_msgs]. rewrite assoc_app, Hmsg. cbn [assoc]. rewrite ident_eqb_neq by apply Hnm. reflexivity.
+      * (* not a reply: nothing emitted *)
+        rewrite Hpe.
+        match goal with |- context [run_frames false fs (?d1, ms)] => set (d1' := d1) end.
+        assert (Hinv' : sinv (if spec_content cls meth then CWantHeader ch else CIdle)
+                             (if spec_content cls meth then Some (ch, meth, spec_reported cls meth args) else None) None d1').
+        { destruct (spec_content cls meth) eqn:Ec; [|split; reflexivity].
+          destruct (content_cases cls meth Ec) as [-> Hcases]. exists meth, (spec_reported 60 meth args). repeat split.
+          destruct Hcases as [ -> | [ -> | [ -> | -> ]]]; try discriminate Hd; unfold dmatch_s, d1'; cbn; [reflexivity| |reflexivity].
+          repeat split. apply (reported_spec 60 60 sig args Hsig Hk). reflexivity. }
+        exact (IH done _ _ None d1' ms Hwfs Hcont Hms Hdist Hinv' Hopen Hmsg).
+    + (* content header *)
+      cbn [content_ok] in Hcont. destruct cst as [|ch'|]; try discriminate.
+      apply andb_prop in Hcont. destruct Hcont as [Hc1 Hcont]. apply andb_prop in Hc1. destruct Hc1 as [Hc1 Hsz2]. apply andb_prop in Hc1. destruct Hc1 as [Hce Hsz1].
+      apply N.eqb_eq in Hce. subst ch'.
+      destruct Hinv as (m & a & -> & -> & Hdm).
+      cbn [spec_server keys] in *. rewrite N.eqb_refl.
+      cbn [step]. rewrite (header_props _ _ _ _ _ _ Hwf1).
+      unfold dmatch_s in Hdm. destruct (m =? 60) eqn:Em.
+      * destruct Hdm as (Hl & Hcur & Hpa). rewrite Hl.
+        match goal with |- context [run_frames false fs (?d1, ms)] => set (d1' := d1) end.
+        assert (Hinv' : sinv (CWantBody ch size) (Some (ch, m, a)) (Some (spec_props slots spec_zero_props)) d1').
+        { exists m, a, (spec_props slots spec_zero_props). repeat split. unfold dmatch_s. rewrite Em. repeat split; assumption. }
+        exact (IH done _ _ _ d1' ms Hwfs Hcont Hms Hdist Hinv' Hopen Hmsg).
+      * rewrite Hdm.
+        assert (Hinv' : sinv (CWantBody ch size) (Some (ch, m, a)) (Some (spec_props slots spec_zero_props)) d).
+        { exists m, a, (spec_props slots spec_zero_props). repeat split; [unfold dmatch_s; rewrite Em; exact Hdm|]. intros ->. discriminate. }
+        exact (IH done _ _ _ d ms Hwfs Hcont Hms Hdist Hinv' Hopen Hmsg).
+    + (* body *)
+      cbn [content_ok] in Hcont. destruct cst as [| |ch' size]; try discriminate.
+      apply andb_prop in Hcont. destruct Hcont as [Hc1 Hcont]. apply andb_prop in Hc1. destruct Hc1 as [Hce Hsz].
+      apply N.eqb_eq in Hce. subst ch'.
+      destruct Hinv as (m & a & p & -> & -> & Hdm & Hpp).
+      cbn [spec_server keys] in *. rewrite N.eqb_refl. cbn [andb].
+      unfold dmatch_s in Hdm. cbn [step]. destruct (m =? 60) eqn:Em.
+      * apply N.eqb_eq in Em. subst m. destruct Hdm as (Hl & Hcur & Hpa). rewrite Hl, Hcur, Hpa, (Hpp eq_refl).
+        cbn [negb]. rewrite (emit_self_pair false (ch, 60, 60) _ ms (Hmsg ch)).
+        match goal with |- context [run_frames false fs (d, ?m1)] =>
+          pose proof (IH done CIdle None None d m1 Hwfs Hcont Hms Hdist (conj eq_refl eq_refl)) as I1 end.
+        rewrite I1; [|exact Hopen|exact Hmsg].
+        cbn [items]. rewrite map_app. cbn [map]. rewrite <- app_assoc. reflexivity.
+      * rewrite Hdm. exact (IH done CIdle None None d ms Hwfs Hcont Hms Hdist (conj eq_refl eq_refl) Hopen Hmsg).
+Qed.
+
+(* ------------------------------------------------------------------ both halves *)
+Theorem step_report : step_report_agree.
+Proof.
+  intros cfs sfs Hc Hs Hn. unfold normal in Hn.
+  apply andb_prop in Hn. destruct Hn as [Hn Hds]. apply andb_prop in Hn. destruct Hn as [Hn Hdc].
+  apply andb_prop in Hn. destruct Hn as [Hn Hms]. apply andb_prop in Hn. destruct Hn as [Hn Hmc].
+  apply andb_prop in Hn. destruct Hn as [Hcc Hcs].
+  destruct (client_sim cfs [] CIdle None None init_dstate init_mstate Hc Hcc Hmc Hdc (conj eq_refl eq_refl) (fun k => eq_refl)) as [I1 I2].
+  cbn [app] in I2. cbn [init_mstate items map app] in I1.
+  set (ms1 := snd (run_frames true cfs (init_dstate, init_mstate))) in *.
+  rewrite (server_sim cfs sfs [] CIdle None None init_dstate ms1 Hs Hcs Hms Hds (conj eq_refl eq_refl)).
+  - rewrite I1. reflexivity.
+  - intros k _. apply I2.
+  - intros ch. rewrite I2. apply req_assoc_none_msg. right. reflexivity.
+Qed.
+
+(* C05 at full strength on the model *)
+Theorem C05_statement_holds : C05_statement.
+Proof. exact (statement_from_step step_report). Qed.
